@@ -116,7 +116,7 @@ def build_coq():
 
 def scan_forbidden():
     hits = []
-    for p in sorted((COQ / 'theories').rglob('*.v')):
+    for p in sorted(list((COQ / 'theories').rglob('*.v')) + list((COQ / 'tie').glob('*.v'))):
         txt = p.read_text()
         # strip comments (non-nested is enough: we do not nest)
         txt_nc = re.sub(r'\(\*.*?\*\)', lambda m: '\n' * m.group(0).count('\n'), txt, flags=re.S)
@@ -289,13 +289,19 @@ class Report:
         cov = self.coverage
         if proof is not None:
             cov['obligations'] = len(proof['theorems'])
-            cov['discharged'] = len(proof['theorems']) if proof['ok'] else 0
+            cov['discharged'] = (len(proof['theorems']) - proof.get('undischarged', 0)) if proof['ok'] else 0
             cov['checker_cmd'] = f'make -C {COQ} && coqc -Q theories Femto theories/Props/{self.prop}.v (Print Assumptions per theorem)'
             tb = ['Coq 8.16.1 kernel (coqc; vm_compute used for model evaluation and *_refuted witnesses)',
                   'hand-written Gallina model tied to /repo by the correspondence run of this check',
                   'harness/*.py (generators, canonicalisation, lexer)']
             for t, ax in proof['axioms'].items():
                 tb.append(f'{t}: ' + ('closed under the global context' if not ax else 'axioms ' + ', '.join(ax)))
+            if proof.get('source_tie'):
+                cov['source_tie'] = proof['source_tie']
+                tb.append('source tie: harness/py2coq.py translated PGMCompiler from %s on this run (sha1 of the generated PgmSrc.v: %s); '
+                          'coq/tie/PgmEquiv.v proves it equivalent to Pgm/Ops.v; trusted: the translator, coq/tie/PyPrelude.v + PgmState.v '
+                          '(meaning of the Python subset, hand-given callees transform_points / _get_filepath / header file / close), '
+                          'coq/tie/LineTok.v (template table)' % (proof['source_tie'].get('source'), proof['source_tie'].get('generated_sha1')))
             if proof.get('coqchk'):
                 tb.append('coqchk -o (independent checker) accepted Props/%s.vo; axioms of all loaded libraries: %s' % (
                     self.prop, ', '.join(proof['coqchk']['axioms_of_all_loaded_libraries']) or 'none'))
@@ -357,6 +363,81 @@ def run_coqchk(prop: str) -> dict:
     return res
 
 
+# ----------------------------------------------------------------------------------------------
+# Source tie: PGMCompiler's methods are translated from /repo's source on every run (harness/py2coq.py) and the equivalence
+# with the hand-written model (coq/tie/PgmEquiv.v) and the source-level statements (coq/tie/SrcProps.v) are re-checked.
+
+TIE_PROPS = {'C01', 'C03', 'C12'}
+TIE_FILES = ['PyPrelude', 'PgmState', 'LineTok', 'PgmSrc', 'PgmEquiv', 'SrcProps']
+COQ_W = '-deprecated-hint-without-locality,-deprecated-instance-without-locality,-notation-overridden'
+
+
+def source_tie(rep: Report, prop: str) -> dict:
+    """Returns {'ok', 'stage', 'log', 'theorems', 'axioms'}; reports a no-failing-input violation when the tie breaks."""
+    d = WORK / prop / 'tie'
+    if d.exists():
+        shutil.rmtree(d)
+    d.mkdir(parents=True)
+    for f in (COQ / 'tie').glob('*.v'):
+        shutil.copy(f, d / f.name)
+    src = REPO / 'src' / 'femto' / 'pgmcompiler.py'
+    res = {'ok': False, 'stage': 'translate', 'log': '', 'theorems': [], 'axioms': {}, 'source': str(src)}
+    rc, out = sh([sys.executable, '-B', str(VERIF / 'harness' / 'py2coq.py'), str(src), str(d / 'PgmSrc.v')], 120)
+    if rc != 0:
+        res['log'] = out[-1500:]
+        rep.violation('proof/source-tie/translator',
+                      'pgmcompiler.py is no longer inside the subset the source translator reads: ' + out.strip().splitlines()[-1][:300],
+                      {'theorem': 'harness/py2coq.py (translation of PGMCompiler to coq/tie/PgmSrc.v)', 'log': out[-1500:]}, no_input=True)
+        return res
+    gen = (d / 'PgmSrc.v').read_text()
+    for m in FORBIDDEN.finditer(re.sub(r'\(\*.*?\*\)', '', gen, flags=re.S)):
+        res['log'] = 'forbidden word in the generated file: ' + m.group(0)
+        rep.violation('proof/source-tie/forbidden', res['log'], {'theorem': 'PgmSrc.v'}, no_input=True)
+        return res
+    import hashlib as _h
+    res['generated_sha1'] = _h.sha1(gen.encode()).hexdigest()
+    for name in TIE_FILES:
+        res['stage'] = name
+        rc, out = sh(['timeout', '900', 'coqc', '-Q', str(COQ / 'theories'), 'Femto', '-Q', str(d), 'FemtoTie', '-w', COQ_W, f'{name}.v'],
+                     950, cwd=d)
+        if rc != 0:
+            res['log'] = out[-2500:]
+            lemma = '?'
+            m = re.search(r'File "\./(\w+)\.v", line (\d+)', out)
+            if m:
+                lines = (d / f'{m.group(1)}.v').read_text().splitlines()[:int(m.group(2))]
+                for ln in reversed(lines):
+                    mm = re.match(r'\s*(?:Lemma|Theorem|Corollary|Example|Definition|Fixpoint)\s+([\w\']+)', ln)
+                    if mm:
+                        lemma = mm.group(1)
+                        break
+            rep.violation(f'proof/source-tie/{name}',
+                          f'the methods translated from pgmcompiler.py no longer satisfy the equivalence with the model: tie/{name}.v fails at {lemma}',
+                          {'theorem': f'coq/tie/{name}.v: {lemma}', 'log': out[-2500:]}, no_input=True)
+            return res
+        if name == 'SrcProps':
+            text = (d / 'SrcProps.v').read_text()
+            printed = re.findall(r'^\s*Print Assumptions\s+([A-Za-z_][\w\']*)\s*\.', text, flags=re.M)
+            blocks = [b for b in re.split(r'^(?=Closed under the global context|Axioms:)', out, flags=re.M)
+                      if b.startswith('Closed under') or b.startswith('Axioms:')]
+            if len(blocks) != len(printed):
+                res['log'] = f'expected {len(printed)} assumption blocks, got {len(blocks)}'
+                rep.violation('proof/source-tie/assumptions', res['log'], {'theorem': 'coq/tie/SrcProps.v'}, no_input=True)
+                return res
+            for nm, b in zip(printed, blocks):
+                ax = [] if b.startswith('Closed under') else [a for a in re.findall(r'^([A-Za-z_][\w.\']*)\s*(?::|$)', b, flags=re.M) if a != 'Axioms']
+                res['axioms'][nm] = ax
+                bad = [a for a in ax if a not in AXIOM_WHITELIST]
+                if bad:
+                    rep.violation('proof/source-tie/assumptions', f'{nm} depends on {bad}', {'theorem': nm}, no_input=True)
+                    return res
+            res['theorems'] = printed
+    res['ok'] = True
+    res['stage'] = 'done'
+    shutil.rmtree(d, ignore_errors=True)
+    return res
+
+
 def static_obligations(rep: Report, prop: str, tier: str = 'quick'):
     """make + forbidden-word scan + Props/<prop>.v assumptions (+ coqchk -o in the thorough tier). Returns the proof dict."""
     ok, log = build_coq()
@@ -371,6 +452,16 @@ def static_obligations(rep: Report, prop: str, tier: str = 'quick'):
     if not proof['ok']:
         rep.violation('proof/props', f'Props/{prop}.v no longer checks', {'theorem': f'Props/{prop}.v', 'log': proof['log']},
                       no_input=True)
+    if prop in TIE_PROPS:
+        tie = source_tie(rep, prop)
+        proof['source_tie'] = {k: tie[k] for k in ('ok', 'stage', 'theorems', 'axioms', 'source') if k in tie}
+        proof['source_tie']['generated_sha1'] = tie.get('generated_sha1')
+        if tie['ok']:
+            proof['theorems'] = proof['theorems'] + ['tie:' + t for t in tie['theorems']]
+            proof['axioms'].update({'tie:' + k: v for k, v in tie['axioms'].items()})
+        else:
+            proof['theorems'] = proof['theorems'] + ['tie:' + tie['stage']]
+            proof['undischarged'] = 1
     if tier == 'thorough':
         chk = run_coqchk(prop)
         proof['coqchk'] = {'ok': chk['ok'], 'axioms_of_all_loaded_libraries': chk['axioms'], 'unsafe': chk['unsafe']}
